@@ -249,7 +249,9 @@ inline void auditPartition(const ADD& d, const AuditOpt& o, vf::Case& c, const s
   size_t k = s.k;
   // class of the reported domain by its mass under the parent (a label for the structural clauses, not an excuse: every class is judged)
   double M0 = d.pProb(s.ub) - d.pProb(s.lb);
-  std::string dc = !(M0 > 0) ? "|zero-mass-domain" : (M0 < 1e-4 ? "|tail-domain(mass<1e-4)" : "");
+  // "tail domain": the mass of one class (M/k) is below 1e-5 -- the order of the probabilities the library's quantile functions resolve
+  // (qChisq answers -1 outside [2e-6, 1-2e-6]; the cumulative functions are accurate to 1e-8 absolute)
+  std::string dc = !(M0 > 0) ? "|zero-mass-domain" : (M0 / (double)std::max<size_t>(k, 1) < 1e-5 ? "|tail-domain(class-mass<1e-5)" : "");
   auto fail = [&](const std::string& sig, const std::string& det) { failF(c, sig, fam, det); };
   // --- class count
   if (k != o.kreq || s.v.size() != o.kreq || s.p.size() != o.kreq) {
